@@ -1,11 +1,35 @@
 """C13 — device-level histories (see statuslib.py)."""
 from common import *
 import statuslib
-from statuslib import coq_term
+from statuslib import coq_term as _dev_term
+
+
+def coq_term(c):
+    if c.startswith("devrep "): return '"SKIP"'
+    if c.startswith("tree "):
+        import treegen
+        return treegen.coq_term(c)
+    return _dev_term(c)
+
+
+def long_sessions():
+    """sessions longer than any 8/16-bit counter: n failing messages nobody reads, then the queries"""
+    return ["devrep %d %s %s" % (n, hexs(f), hexs(b'SYST:ERR:COUN?;:SYST:ERR?')) for n in [1, 255, 256, 257, 300, 65535, 65536, 65537, 70000] for f in (b"FOO", b"*ESE 256", b"*ERR -350")]
+
+
+def rep_oracle(c, r):
+    f = c.split(" "); n = int(f[1]); code = {b"FOO": -113, b"*ESE 256": -222, b"*ERR -350": -350}[unhex(f[2])]
+    bit = {-113: 32, -222: 16, -350: 8}[code]
+    msgs = {-113: b'-113,"Undefined header"', -222: b'-222,"Data out of range"', -350: b'-350,"Queue overflow"'}
+    q = unhex(f[3])
+    if q.startswith(b"SYST:ERR:COUN?"): want, left = b"%d;" % n + msgs[code] + b"\n", n - 1
+    else: want, left = b"4;%d;%d\n" % (bit, n), n
+    exp = "OK %s qlen=%d esr=%d" % (hexs(want), left, 0 if q.startswith(b"*STB") else bit)
+    return None if r == exp else "after %d failed messages the device answers %s, expected %s" % (n, r[:160], exp[:160])
 
 PID = "C13"
 TARGETS = ["Run.vo", "Contrib_proofs.vo", "ContribMeaning_proofs.vo", "NonVacuous/C13.vo"]
-IMPORTS = "From VF Require Import Base Show Gen_Errors Status Contrib Run."
+IMPORTS = "From VF Require Import Base Show Gen_Errors Lexer Response Conv Tree Scripted Status Contrib Run."
 ALLOWED_AXIOMS = []
 PROFILES = ["debug"]
 ASSUMPTIONS = ["device wired as examples/minimal_scpi.rs (the library VecErrorQueue as error queue, scpi_stb/scpi_cls/scpi_opc); "
@@ -15,7 +39,20 @@ ASSUMPTIONS = ["device wired as examples/minimal_scpi.rs (the library VecErrorQu
 
 def harness_line(c): return c
 def case_of_line(l): return l
-def obs(s): return statuslib.obs_fields(s, ('q', 'esr', 'h'))   # C13 constrains queue, ESR, hook count and the responses
+def obs(s):
+    if s.startswith(("OK ", "E")) and " qlen=" in s: return s
+    if " hook=" in s: return " | ".join(" ".join(m.split(" ")[i] for i in (0, 2) if i < len(m.split(" "))) for m in s.split(" | "))     # status and hook log
+    return _obs(s)
+
+
+def _obs(s): return statuslib.obs_fields(s, ('q', 'esr', 'h'))   # C13 constrains queue, ESR, hook count and the responses
+
+
+def impl_oracle(c, r):
+    if r is None: return "no result from harness"
+    if r.startswith(("PANIC", "CRASH", "NOT-RUN", "HANG")) or " PANIC" in r: return "device history panicked / died: " + r[:160]
+    if c.startswith("devrep "): return rep_oracle(c, r)
+    return None
 
 
 def nontrivial(c, impl):
@@ -23,6 +60,7 @@ def nontrivial(c, impl):
 
 
 def distribution(cases, impl):
+    cases = [c for c in cases if not c.startswith(("devrep ", "tree "))]
     steps = sum(c.count("|") + 1 for c in cases)
     fails = sum(r.count(" - q=") for r in impl if r)
     return {"histories": len(cases), "steps": steps, "failed_messages": fails,
@@ -54,6 +92,13 @@ def long_history():
 
 
 def generate(rng, tier):
+    import stress
+    # handlers of every temperament (incl. ones that swallow parameter errors) on scripted trees: what reaches the error
+    # hook is what a device queues
+    return _generate(rng, tier) + long_sessions() + stress.tree_stream(tier)
+
+
+def _generate(rng, tier):
     n = 250 if tier == "quick" else 4000
     return [long_history()] + [statuslib.gen_history(rng, rng.choice([5, 10, 20, 30]) if tier == "thorough" else rng.choice([5, 10, 18]),
                                   {"fail": 4, "common": 5, "reg": 1, "cond": 0.5}) for _ in range(n)]
